@@ -180,14 +180,17 @@ def namespaceOk (newPre : String) (b a : SV) : Bool :=
   a.links == b.links &&
   a.indep == b.indep.map (fun e => (renamed b.pre newPre e.1, e.2))
 
-/-- **bulk**: after the map form returned, every entry of the map is a link; when the object had no
-link before, the new links are also in sync (the final `matchParametersValues` gives every key the
-value of its source).  With links already present that last part is not claimed: the values handed
-to the final `matchParametersValues` are cloned before it starts, and a key whose source follows
-another key receives the source's *former* value (corpus/C03/note-bulk-stale-sync.txt). -/
+/-- **bulk** (after the repair of the final loop): when the map form returned — under the empty
+namespace, where the names of the map are the names the pair form takes (under a namespace the map
+form looks its names up with the namespace and hands them to the pair form, which adds it again:
+it raises, `inv` and `frame` are all that is claimed) —
+* every entry `key -> val` of the map is a link `val > key`, and it is in sync;
+* every link of before is still there, and it is in sync if it was in sync before or if its source
+  changed during the call (**alias_tracks** across the call). -/
 def bulkOk (entries : List (String × String)) (b a : SV) : Bool :=
-  (mkMap entries).all (fun e => a.links.contains (a.short e.2, a.short e.1)) &&
-  (!b.links.isEmpty || (mkMap entries).all (fun e => a.synced (a.short e.2, a.short e.1)))
+  b.pre != "" ||
+  ((mkMap entries).all (fun e => a.links.contains (e.2, e.1) && a.synced (e.2, e.1)) &&
+   b.links.all (fun l => a.links.contains l && ((b.value? l.1 == a.value? l.1 && !b.synced l) || a.synced l)))
 
 def Out.isErr : Out → Bool
   | .err _ => true
@@ -198,6 +201,13 @@ def Op.slot : Op → Nat
   | .new k _ | .add k _ | .alias k .. | .unalias k .. | .bulk k _ | .setv k .. | .setvs k _ | .matchvs k _
   | .setallv k _ | .ns k _ | .aliases k | .aliasOf k _ | .from k _ => k
   | .copy _ d | .assign _ d => d
+
+/-- the slots that must hold an object for the operation to reach the library -/
+def Op.needs : Op → List Nat
+  | .new .. => []
+  | .copy s _ => [s]
+  | .assign s d => [s, d]
+  | op => [op.slot]
 
 def Op.wellFormed (b : View) : Op → Bool
   | .add k p => match b.get k with
